@@ -80,12 +80,42 @@ def build(date, n):
     return dag, frontier, vals, cons, ctx, (hh, bg, eg, kind, rentner)
 
 
+def assumption_check(ck, dag, date, done):
+    """The slice treats group-level quantities above the priority checks as functions of the group id, i.e. it
+    assumes group constancy (C15).  The assumption is re-checked here on every group-level rule in the cone of the
+    C17 targets with C15's two-copy query; a failure that is not a listed C15 finding voids the proof for this
+    tree: reported as inconclusive here (the violation itself is C15's to report)."""
+    from gsv.checks import c15
+    tmp = common.Check("C15", ck.tier)
+    facts = c15.Facts(tmp, dag, date)
+    known = {(tuple(k["key"])[1], tuple(k["key"])[2]) for k in tmp.known if tuple(k["key"])[:1] == ("not-group-constant",)}
+    order, _ = dag.cone(TARGETS)
+    for node in order:
+        sg = gt.suffix_group(node)
+        if not sg or node.endswith("_params") or dag.kind(node) != "rule":
+            continue
+        r, m, info = facts.query(node, sg, oblige=False)
+        ck.queries += 1
+        if r != "sat":
+            continue
+        f = info[0]
+        if (f.__name__, sg) in known or (f.__name__, sg) in done:
+            continue
+        done.add((f.__name__, sg))
+        ck.add_inconclusive(f"assumption of the proof fails at {date}: {f.__name__} is not constant within {sg} (free arguments {info[2]}); "
+                            "the C17 claims are not established for this tree (see C15)")
+        ck.extra.setdefault("assumption_failures", []).append({"rule": f.__name__, "group": sg, "date": str(date), "free_args": info[2]})
+    ck.queries += tmp.queries
+    ck.solver_time += tmp.solver_time
+
+
 def run_date(ck, date, n, seen):
     try:
         dag, frontier, vals, cons, ctx, ids = build(date, n)
     except R.Unsupported as e:
         ck.add_inconclusive(f"slice at {date}: {e}")
         return
+    assumption_check(ck, dag, date, ck.extra.setdefault("_assumption_seen", set()))
     ck.functions |= ctx.funcs
     hh, bg, eg, kind, rentner = ids
     T = lambda v: R.term_of(v, float)        # noqa: E731
@@ -191,11 +221,13 @@ def run(tier):
     _N = n
     chunks = [dates[i::common.JOBS] for i in range(common.JOBS) if dates[i::common.JOBS]] if len(dates) > 1 else [dates]
     common.run_parallel(ck, _chunk, chunks)
+    ck.extra.pop("_assumption_seen", None)
     seen = range(ck.extra.get("distinct_slices", 0))
     ck.bounds = {"persons": n, "households": "<= 2", "date_classes": len(dates), "distinct_slices": len(seen), "eps": "1e-6",
                  "window": "quick: 4 dates >= 2015; thorough: every date region >= 2015-01-01"}
     ck.assumptions = ["frontier quantities (needs, income, entitlements before the priority checks, wealth terms) are arbitrary non-negative group-level values "
-                      "(group constancy: C15); unit nesting bg/eg within hh (C12); kind => not rentner"]
+                      "(group constancy: C15 -- re-checked on every group-level rule in the cone of the C17 targets; a failure that is not a listed C15 "
+                      "finding is reported as 'assumption fails' and leaves the run inconclusive); unit nesting bg/eg within hh (C12); kind => not rentner"]
     ck.stubs = ["numpy_groupies.aggregate contract model (conformance-tested in C11)", "numpy.asarray -> symbolic array"]
     ck.rule = "one obligation per (distinct symbolic slice, claim)"
     ck.explanation = ("The real priority-rule slice (rules, wthh_id grouping code, group aggregations) is evaluated over N symbolic persons with symbolic unit membership; "
